@@ -30,8 +30,17 @@ class UnionHolder:
     items: List[Union[Numbered, Priced, Named]] = field(default_factory=list, metadata={"type": "Element"})
 
 
+@dataclass
+class WildHolder:  # a single-valued wildcard: the parser stores text + children in a generic element without a name
+    any_element: Optional[object] = field(default=None, metadata={"type": "Wildcard"})
+
+
 def instances():
+    from xsdata.formats.dataclass.models.generics import AnyElement
+
     return [
+        WildHolder(any_element=AnyElement(qname=None, text="text", children=[AnyElement(qname="foo", text="")])),
+        WildHolder(any_element=AnyElement(qname="named", text="t", tail=None, attributes={"k": "v"})),
         UnionHolder(item=Named(code="abc")),
         UnionHolder(item=Numbered(code=7)),
         UnionHolder(item=Named(code="x-1", note="n")),
